@@ -1075,6 +1075,19 @@ theorem fetch_uses_traced (file : Bytes) (r : IdxRow) (a b : Nat) :
   rfl
 
 
+/-- **C17.fast_path_same**: the vectorised interval path (string-encoded chromosomes) computes, for
+ALL integer arguments, the same seek position, read length, number of deleted newlines and start
+column as the scalar path — so `fetch_uses_traced`, `fetch_interval` and `random_access` hold for
+both code paths — and the row length it allocates is `b − a` -/
+theorem fast_path_same (a b rlen offset lenc lenb : Int) :
+    trFastSeek a b rlen offset lenc lenb = trSeek a b rlen offset lenc lenb ∧
+    trFastReadLen a b rlen offset lenc lenb = trReadLen a b rlen offset lenc lenb ∧
+    trFastNDel a b rlen offset lenc lenb = trNDel a b rlen offset lenc lenb ∧
+    trFastStartMod a b rlen offset lenc lenb = trStartMod a b rlen offset lenc lenb ∧
+    trFastRowLen a b rlen offset lenc lenb = b - a := by
+  unfold trFastSeek trSeek trFastReadLen trReadLen trFastNDel trNDel trFastStartMod trStartMod trFastRowLen
+  refine ⟨by omega, by omega, by omega, by omega, by omega⟩
+
 end Traced
 
 /-- the rule shipped before the repair reported bases-per-line: for `>a\nACGTA\nCG\n` (index row
